@@ -360,10 +360,10 @@ macro_rules! c01_write_file {
 /// reference: local header == central header (name, flags, method, time, CRC = bitwise
 /// reference CRC of the payload, sizes), data in place, offsets/sizes/counts exact, ZIP64 local
 /// record when large_file, mode = S_IFREG | perm&0o777, comment stored. 1-byte comment.
-// @h prop=C01,C02,C09,C18 tier=quick t=1200 mem=16 name=c01_write_file_d2_c1
+// @h prop=C01,C02,C09,C18 tier=quick t=1200 mem=8 name=c01_write_file_d2_c1
 c01_write_file!(c01_write_file_d2_c1, 2, 1, 1, false, 10);
 /// C01/C02/C08 as above with large_file(true): 20-byte local ZIP64 record, back-patched sizes.
-// @h prop=C01,C02,C08,C18 tier=quick t=1200 mem=16 name=c01_write_file_d2_c1_large
+// @h prop=C01,C02,C08,C18 tier=quick t=1200 mem=8 name=c01_write_file_d2_c1_large
 c01_write_file!(c01_write_file_d2_c1_large, 2, 1, 1, true, 10);
 
 // =============================================================================================
@@ -379,6 +379,15 @@ pub(crate) struct Exp<'a> {
     pub time: u16,
     pub mode: u32,
     pub encrypted: bool,
+    /// raw-copied entry: method number, CRC and uncompressed size are the source's declared
+    /// values (not derived from `content`, which then is the compressed byte string)
+    pub raw: Option<RawExp>,
+}
+#[derive(Clone, Copy)]
+pub(crate) struct RawExp {
+    pub method: u16,
+    pub crc: u32,
+    pub usize_: u32,
 }
 
 /// Judge `b[..end]`: entries laid out back to back from offset `start`, then the central
@@ -400,12 +409,17 @@ pub(crate) fn judge_archive(b: &[u8], start: usize, end: usize, exp: &[Exp<'_>],
         assert_eq!(flags & 1 != 0, e.encrypted);
         assert_eq!(flags & (1 << 11) != 0, !name_is_ascii(e.name));
         assert_eq!(flags & (1 << 3), 0);
-        assert_eq!(le16(b, p + 8), 0);
+        assert_eq!(le16(b, p + 8), match e.raw { Some(r) => r.method, None => 0 });
         assert_eq!(le16(b, p + 10), e.time);
         assert_eq!(le16(b, p + 12), e.date);
         let crc = le32(b, p + 14);
-        if !e.encrypted {
-            assert_eq!(crc, ref_crc32(e.content, dlen));
+        match e.raw {
+            Some(r) => assert_eq!(crc, r.crc),
+            None => {
+                if !e.encrypted {
+                    assert_eq!(crc, ref_crc32(e.content, dlen));
+                }
+            }
         }
         if e.large {
             assert_eq!(le32(b, p + 18), 0xFFFF_FFFF);
@@ -415,6 +429,14 @@ pub(crate) fn judge_archive(b: &[u8], start: usize, end: usize, exp: &[Exp<'_>],
             assert_eq!(le64(b, p + 42 + nlen), dlen as u64);
         } else {
             assert_eq!(le32(b, p + 18), dlen as u32);
+            match e.raw {
+                Some(r) => assert_eq!(le32(b, p + 22), r.usize_),
+                None => {
+                    if !e.encrypted {
+                        assert_eq!(le32(b, p + 22), dlen as u32);
+                    }
+                }
+            }
         }
         assert_eq!(le16(b, p + 26) as usize, nlen);
         assert_eq!(le16(b, p + 28) as usize, lx + e.local_extra.len());
@@ -447,13 +469,18 @@ pub(crate) fn judge_archive(b: &[u8], start: usize, end: usize, exp: &[Exp<'_>],
         assert_eq!(le32(b, p), SIG_CENTRAL);
         assert_eq!(le16(b, p + 4) >> 8, 3);
         assert_eq!(le16(b, p + 8), le16(b, off[i] + 6));
-        assert_eq!(le16(b, p + 10), 0);
+        assert_eq!(le16(b, p + 10), match e.raw { Some(r) => r.method, None => 0 });
         assert_eq!(le16(b, p + 12), e.time);
         assert_eq!(le16(b, p + 14), e.date);
         assert_eq!(le32(b, p + 16), le32(b, off[i] + 14));
         assert_eq!(le32(b, p + 20), dlen as u32);
-        if !e.encrypted {
-            assert_eq!(le32(b, p + 24), dlen as u32);
+        match e.raw {
+            Some(r) => assert_eq!(le32(b, p + 24), r.usize_),
+            None => {
+                if !e.encrypted {
+                    assert_eq!(le32(b, p + 24), dlen as u32);
+                }
+            }
         }
         assert_eq!(le16(b, p + 28) as usize, nlen);
         assert_eq!(le16(b, p + 30) as usize, e.central_extra.len());
@@ -629,7 +656,7 @@ fn sym_opts() -> (FileOptions, u16, u16, u32) {
 /// end_extra_data without extra data -> Err; then a file with 1 byte; finish. The archive holds
 /// exactly the directory ("d/" - slash appended, S_IFDIR|perm, empty) and the file with exactly
 /// the byte whose write succeeded.
-// @h prop=C12,C01 tier=quick t=1800 mem=24
+// @h prop=C12,C01 tier=quick t=1800 mem=10
 api_harness!(c12_misuse_then_dir_and_file, 10, {
     let mut sink = Sink::<192>::new();
     let mut w = ZipWriter::new(sink.handle());
@@ -654,8 +681,8 @@ api_harness!(c12_misuse_then_dir_and_file, 10, {
     core::mem::forget(w);
     assert!(!sink.overflow);
     let exp = [
-        Exp { name: b"d/", content: &[], local_extra: &[], central_extra: &[], large: false, date: date1, time: time1, mode: 0o040000 | perm1, encrypted: false },
-        Exp { name: &nb, content: &[d0], local_extra: &[], central_extra: &[], large: false, date: date2, time: time2, mode: 0o100000 | perm2, encrypted: false },
+        Exp { name: b"d/", content: &[], local_extra: &[], central_extra: &[], large: false, date: date1, time: time1, mode: 0o040000 | perm1, encrypted: false, raw: None },
+        Exp { name: &nb, content: &[d0], local_extra: &[], central_extra: &[], large: false, date: date2, time: time2, mode: 0o100000 | perm2, encrypted: false, raw: None },
     ];
     judge_archive(&sink.buf, 0, sink.end, &exp, &[]);
     kani::cover!(sink.end > 100);
@@ -663,7 +690,7 @@ api_harness!(c12_misuse_then_dir_and_file, 10, {
 
 /// C12: calls after finish: write, start_file, add_directory, end_extra_data and a second
 /// finish all return errors (no panic) and the finished archive (one empty file) is unchanged.
-// @h prop=C12 tier=quick t=1800 mem=24
+// @h prop=C12 tier=quick t=1800 mem=10
 api_harness!(c12_calls_after_finish, 10, {
     let mut sink = Sink::<128>::new();
     let mut w = ZipWriter::new(sink.handle());
@@ -680,14 +707,14 @@ api_harness!(c12_calls_after_finish, 10, {
     err!(w.finish(), "second finish accepted");
     core::mem::forget(w);
     assert_eq!(sink.end, end);
-    let exp = [Exp { name: b"a", content: &[], local_extra: &[], central_extra: &[], large: false, date: date1, time: time1, mode: 0o100000 | perm1, encrypted: false }];
+    let exp = [Exp { name: b"a", content: &[], local_extra: &[], central_extra: &[], large: false, date: date1, time: time1, mode: 0o100000 | perm1, encrypted: false, raw: None }];
     judge_archive(&sink.buf, 0, sink.end, &exp, &[]);
     kani::cover!(true);
 });
 
 /// C12: a new entry implicitly closes the previous one: start_file(a)+1 byte, start_file(b)+2
 /// bytes (two writes), finish: both entries hold exactly their bytes, CRCs and sizes patched.
-// @h prop=C12,C01,C09 tier=quick t=1800 mem=24
+// @h prop=C12,C01,C09 tier=quick t=1800 mem=10
 api_harness!(c12_implicit_close_two_files, 10, {
     let mut sink = Sink::<192>::new();
     let mut w = ZipWriter::new(sink.handle());
@@ -702,8 +729,8 @@ api_harness!(c12_implicit_close_two_files, 10, {
     ok!(w.finish(), "finish failed");
     core::mem::forget(w);
     let exp = [
-        Exp { name: b"a", content: &d[..1], local_extra: &[], central_extra: &[], large: false, date: date1, time: time1, mode: 0o100000 | perm1, encrypted: false },
-        Exp { name: b"b", content: &d[1..3], local_extra: &[], central_extra: &[], large: false, date: date2, time: time2, mode: 0o100000 | perm2, encrypted: false },
+        Exp { name: b"a", content: &d[..1], local_extra: &[], central_extra: &[], large: false, date: date1, time: time1, mode: 0o100000 | perm1, encrypted: false, raw: None },
+        Exp { name: b"b", content: &d[1..3], local_extra: &[], central_extra: &[], large: false, date: date2, time: time2, mode: 0o100000 | perm2, encrypted: false, raw: None },
     ];
     judge_archive(&sink.buf, 0, sink.end, &exp, &[]);
     kani::cover!(true);
@@ -711,7 +738,7 @@ api_harness!(c12_implicit_close_two_files, 10, {
 
 /// C01: symlink entry: name, target stored as content, S_IFLNK|perm; write after it -> Err;
 /// archive comment kept.
-// @h prop=C01,C12 tier=quick t=1800 mem=24
+// @h prop=C01,C12 tier=quick t=1800 mem=10
 api_harness!(c01_symlink_and_comment, 10, {
     let mut sink = Sink::<128>::new();
     let mut w = ZipWriter::new(sink.handle());
@@ -724,7 +751,7 @@ api_harness!(c01_symlink_and_comment, 10, {
     err!(w.write(&[1u8]), "write after a symlink was accepted");
     ok!(w.finish(), "finish failed");
     core::mem::forget(w);
-    let exp = [Exp { name: b"s", content: &tb, local_extra: &[], central_extra: &[], large: false, date: date1, time: time1, mode: 0o120000 | perm1, encrypted: false }];
+    let exp = [Exp { name: b"s", content: &tb, local_extra: &[], central_extra: &[], large: false, date: date1, time: time1, mode: 0o120000 | perm1, encrypted: false, raw: None }];
     judge_archive(&sink.buf, 0, sink.end, &exp, &cm);
     kani::cover!(true);
 });
@@ -732,7 +759,7 @@ api_harness!(c01_symlink_and_comment, 10, {
 /// C12: an unsupported compression method is refused by start_file with an error (no panic);
 /// whatever the writer's state afterwards, a later finish() either fails or yields an archive
 /// that does not contain the refused entry.
-// @h prop=C12 tier=quick t=1800 mem=24
+// @h prop=C12 tier=quick t=1800 mem=10
 api_harness!(c12_unsupported_method_refused, 10, {
     let mut sink = Sink::<128>::new();
     let mut w = ZipWriter::new(sink.handle());
@@ -762,7 +789,7 @@ api_harness!(c12_unsupported_method_refused, 10, {
 /// one record (symbolic unreserved id, 1-byte body) written through Write, end_extra_data
 /// (returns the final data start), 1 content byte, finish: the record is stored verbatim in BOTH
 /// the local header and the central record, lengths patched, data starts where reported.
-// @h prop=C17,C12 tier=quick t=1800 mem=24
+// @h prop=C17,C12 tier=quick t=1800 mem=10
 api_harness!(c17_extra_shared, 51, {
     let mut sink = Sink::<160>::new();
     let mut w = ZipWriter::new(sink.handle());
@@ -780,7 +807,7 @@ api_harness!(c17_extra_shared, 51, {
     ok!(w.write_all(&[d0]), "write failed");
     ok!(w.finish(), "finish failed");
     core::mem::forget(w);
-    let exp = [Exp { name: b"a", content: &[d0], local_extra: &rec, central_extra: &rec, large: false, date: date1, time: time1, mode: 0o100000 | perm1, encrypted: false }];
+    let exp = [Exp { name: b"a", content: &[d0], local_extra: &rec, central_extra: &rec, large: false, date: date1, time: time1, mode: 0o100000 | perm1, encrypted: false, raw: None }];
     judge_archive(&sink.buf, 0, sink.end, &exp, &[]);
     kani::cover!(id == 0xbeef);
 });
@@ -788,7 +815,7 @@ api_harness!(c17_extra_shared, 51, {
 /// C17: local-only + central-only extra data: local record before
 /// end_local_start_central_extra_data appears only in the local header, the central record
 /// only in the central directory.
-// @h prop=C17,C12 tier=quick t=1800 mem=24
+// @h prop=C17,C12 tier=quick t=1800 mem=10
 api_harness!(c17_extra_local_and_central, 51, {
     let mut sink = Sink::<160>::new();
     let mut w = ZipWriter::new(sink.handle());
@@ -811,14 +838,14 @@ api_harness!(c17_extra_local_and_central, 51, {
     ok!(w.write_all(&[d0]), "write failed");
     ok!(w.finish(), "finish failed");
     core::mem::forget(w);
-    let exp = [Exp { name: b"a", content: &[d0], local_extra: &lrec, central_extra: &crec, large: false, date: date1, time: time1, mode: 0o100000 | perm1, encrypted: false }];
+    let exp = [Exp { name: b"a", content: &[d0], local_extra: &lrec, central_extra: &crec, large: false, date: date1, time: time1, mode: 0o100000 | perm1, encrypted: false, raw: None }];
     judge_archive(&sink.buf, 0, sink.end, &exp, &[]);
     kani::cover!(true);
 });
 
 /// C17/C12: reserved or malformed extra data is refused by end_extra_data with an error: one
 /// record with a symbolic id (reserved) or a truncated body.
-// @h prop=C17,C12 tier=quick t=1800 mem=24
+// @h prop=C17,C12 tier=quick t=1800 mem=10
 api_harness!(c17_extra_reserved_refused, 51, {
     let mut sink = Sink::<160>::new();
     let mut w = ZipWriter::new(sink.handle());
@@ -834,4 +861,561 @@ api_harness!(c17_extra_reserved_refused, 51, {
     kani::cover!(id == 1);
     kani::cover!(id == 0xbeef && sz == 2);
     core::mem::forget(w);
+});
+
+/// C17/C12/C02: shared extra data on a large_file(true) entry: the local extra-field length
+/// must cover the 20-byte ZIP64 block plus the caller's record, data starts where reported.
+// @h prop=C17,C12,C02 tier=quick t=1500 mem=8
+api_harness!(c17_extra_shared_large, 51, {
+    let mut sink = Sink::<192>::new();
+    let mut w = ZipWriter::new(sink.handle());
+    let (o1, date1, time1, perm1) = sym_opts();
+    let o1 = o1.large_file(true);
+    let id: u16 = kani::any();
+    kani::assume(!ref_id_reserved(id));
+    let body: u8 = kani::any();
+    let rec = [id as u8, (id >> 8) as u8, 1, 0, body];
+    let d0: u8 = kani::any();
+    let pre = ok!(w.start_file_with_extra_data("a", o1), "start_file_with_extra_data failed");
+    assert_eq!(pre, 31 + 20);
+    ok!(w.write_all(&rec), "writing extra data failed");
+    let ds = ok!(w.end_extra_data(), "end_extra_data failed on an unreserved complete record");
+    assert_eq!(ds, 31 + 20 + 5);
+    ok!(w.write_all(&[d0]), "write failed");
+    ok!(w.finish(), "finish failed");
+    core::mem::forget(w);
+    let exp = [Exp { name: b"a", content: &[d0], local_extra: &rec, central_extra: &rec, large: true, date: date1, time: time1, mode: 0o100000 | perm1, encrypted: false, raw: None }];
+    judge_archive(&sink.buf, 0, sink.end, &exp, &[]);
+    kani::cover!(id == 0xbeef);
+});
+
+/// C17/C12: central-only extra data is validated too: after end_local_start_central_extra_data a
+/// record with a reserved id or a truncated body makes end_extra_data fail.
+// @h prop=C17,C12 tier=quick t=1500 mem=8
+api_harness!(c17_central_only_reserved_refused, 51, {
+    let mut sink = Sink::<160>::new();
+    let mut w = ZipWriter::new(sink.handle());
+    let (o1, _, _, _) = sym_opts();
+    let id: u16 = kani::any();
+    let sz: u16 = kani::any();
+    let body: u8 = kani::any();
+    kani::assume(ref_id_reserved(id) || sz > 1);
+    let rec = [id as u8, (id >> 8) as u8, sz as u8, (sz >> 8) as u8, body];
+    ok!(w.start_file_with_extra_data("a", o1), "start_file_with_extra_data failed");
+    ok!(w.end_local_start_central_extra_data(), "end_local_start_central_extra_data failed on empty local data");
+    ok!(w.write_all(&rec), "writing extra data failed");
+    err!(w.end_extra_data(), "reserved/truncated central-only extra data accepted");
+    kani::cover!(id == 1);
+    kani::cover!(id == 0xbeef && sz == 2);
+    core::mem::forget(w);
+});
+
+/// C09 writer half / C01: the sink accepts the entry DATA in arbitrary short writes (1..=4 bytes per
+/// call, symbolic schedule); the finished archive is byte-for-byte the one the reference layout
+/// prescribes (CRC, sizes, data), i.e. identical to the archive produced with full writes.
+// @h prop=C09,C01 tier=quick t=1500 mem=8
+api_harness!(c09_writer_short_data_writes, 10, {
+    let mut sink = Sink::<128>::new();
+    let mut w = ZipWriter::new(sink.handle());
+    let d: [u8; 3] = kani::any();
+    let (o1, date1, time1, perm1) = sym_opts();
+    ok!(w.start_file("a", o1), "start_file failed");
+    sink.env.short = true;
+    sink.env.sched = kani::any();
+    ok!(w.write_all(&d), "write failed");
+    sink.env.short = false;
+    ok!(w.finish(), "finish failed");
+    core::mem::forget(w);
+    let exp = [Exp { name: b"a", content: &d, local_extra: &[], central_extra: &[], large: false, date: date1, time: time1, mode: 0o100000 | perm1, encrypted: false, raw: None }];
+    judge_archive(&sink.buf, 0, sink.end, &exp, &[]);
+    kani::cover!(sink.env.calls > 30);
+});
+
+/// C08/C02 finalize at every archive position: an empty archive whose end records are written at
+/// an arbitrary 62-bit file offset (sparse sink). Central-directory offset > 0xFFFFFFFF <=> a
+/// ZIP64 end record + locator precede the classic record; the ZIP64 record carries the exact
+/// offset, the locator points at the ZIP64 record, the classic record holds the sentinel; below
+/// the limit the classic record alone holds the exact offset.
+// @h prop=C08,C02 tier=quick t=900 mem=10
+api_harness!(c08_finalize_any_offset_empty, 10, {
+    let base: u64 = kani::any();
+    kani::assume(base < (1u64 << 62));
+    let mut sink = Sink::<128>::with_base(base);
+    let mut w = ZipWriter::new(sink.handle());
+    ok!(w.finish(), "finish failed");
+    core::mem::forget(w);
+    let b = &sink.buf;
+    if sink.end == 22 {
+        assert!(base <= THR, "central directory beyond 4 GiB without a ZIP64 end record");
+        assert_eq!(le32(b, 0), SIG_EOCD);
+        assert_eq!(le16(b, 8), 0);
+        assert_eq!(le16(b, 10), 0);
+        assert_eq!(le32(b, 12), 0);
+        assert_eq!(le32(b, 16) as u64, base);
+        assert_eq!(le16(b, 20), 0);
+    } else {
+        assert_eq!(sink.end, 56 + 20 + 22);
+        assert!(base >= THR);
+        assert_eq!(le32(b, 0), SIG_EOCD64);
+        assert_eq!(le64(b, 4), 44);
+        assert!(le16(b, 14) >= 45);
+        assert_eq!(le32(b, 16), 0);
+        assert_eq!(le32(b, 20), 0);
+        assert_eq!(le64(b, 24), 0);
+        assert_eq!(le64(b, 32), 0);
+        assert_eq!(le64(b, 40), 0);
+        assert_eq!(le64(b, 48), base);
+        assert_eq!(le32(b, 56), SIG_LOC64);
+        assert_eq!(le32(b, 60), 0);
+        assert_eq!(le64(b, 64), base);
+        assert_eq!(le32(b, 72), 1);
+        assert_eq!(le32(b, 76), SIG_EOCD);
+        assert_eq!(le16(b, 84), 0);
+        assert_eq!(le16(b, 86), 0);
+        assert_eq!(le32(b, 88), 0);
+        assert_eq!(le32(b, 92), 0xFFFF_FFFF);
+    }
+    kani::cover!(base == THR + 1);
+    kani::cover!(base == THR);
+});
+
+/// C08 the 4 GiB guard, one step from a constructed state ("n bytes have been written to this
+/// Stored entry", n symbolic up to 8 GiB, sink position not advanced): one more byte is accepted
+/// iff the entry was declared large or the total still fits 32 bits; when refused the writer is
+/// poisoned and no later finish() succeeds; when accepted and finished, the recorded
+/// uncompressed size is exactly n+1 (from the ZIP64 record when it does not fit or the entry is
+/// large), never a wrapped value.
+// @h prop=C08,C12 tier=quick t=1500 mem=8
+api_harness!(c08_write_guard_4gib, 10, {
+    let mut sink = Sink::<160>::new();
+    let mut w = ZipWriter::new(sink.handle());
+    let large: bool = kani::any();
+    let (o1, _, _, _) = sym_opts();
+    ok!(w.start_file("a", o1.large_file(large)), "start_file failed");
+    let n: u64 = kani::any();
+    kani::assume(n <= (1u64 << 33));
+    w.stats.bytes_written = n;
+    let d0: u8 = kani::any();
+    match w.write(&[d0]) {
+        Ok(k) => {
+            assert_eq!(k, 1);
+            assert!(large || n + 1 <= THR, "write beyond 4 GiB accepted for an entry not declared large");
+            ok!(w.finish(), "finish failed");
+            let b = &sink.buf;
+            let lx = if large { 20 } else { 0 };
+            let cd = 31 + lx + 1;
+            assert_eq!(le32(b, cd), SIG_CENTRAL);
+            let f = (le32(b, cd + 24), le32(b, cd + 20), le32(b, cd + 42));
+            let elen = le16(b, cd + 30) as usize;
+            match strict_zip64_decode(b, cd + 47, elen, f) {
+                Some((usz, csz, off, _)) => {
+                    assert_eq!(usz, n + 1);
+                    assert_eq!(csz, 1);
+                    assert_eq!(off, 0);
+                }
+                None => assert!(false, "central ZIP64 record inconsistent"),
+            }
+            if large {
+                assert_eq!(le64(b, 35), n + 1);
+            } else {
+                assert_eq!(le32(b, 22) as u64, n + 1);
+            }
+            kani::cover!(large && n + 1 > THR);
+            kani::cover!(!large && n + 1 == THR);
+        }
+        Err(e) => {
+            core::mem::forget(e);
+            assert!(!large && n + 1 > THR, "write refused although the entry may grow");
+            err!(w.finish(), "finish() succeeded after the 4 GiB guard fired");
+            kani::cover!(true);
+        }
+    }
+    core::mem::forget(w);
+});
+
+/// C17 alignment for every small alignment value and every preceding file offset: an entry
+/// started with start_file_aligned(align in 0..=8) at an arbitrary 40-bit file position has its
+/// data at a multiple of align (align >= 2), the padding travels in a well-formed local extra
+/// record (id 0x617a) that is absent from the central directory, the returned pad equals the
+/// local extra length, and the content byte is where the local header says.
+// @h prop=C17 tier=quick t=1800 mem=10
+api_harness!(c17_aligned_small_any_offset, 12, {
+    let base: u64 = kani::any();
+    kani::assume(base < (1u64 << 32) - 4096);
+    let align: u16 = kani::any();
+    kani::assume(align <= 8);
+    let mut sink = Sink::<128>::with_base(base);
+    let mut w = ZipWriter::new(sink.handle());
+    let (o1, _, _, _) = sym_opts();
+    let d0: u8 = kani::any();
+    let pad = match w.start_file_aligned("a", o1, align) {
+        Ok(p) => p,
+        Err(e) => {
+            core::mem::forget(e);
+            assert!(false, "a small alignment was refused");
+            return;
+        }
+    };
+    ok!(w.write_all(&[d0]), "write failed");
+    ok!(w.finish(), "finish failed");
+    core::mem::forget(w);
+    let b = &sink.buf;
+    assert_eq!(le32(b, 0), SIG_LOCAL);
+    assert_eq!(le16(b, 26), 1);
+    let x = le16(b, 28) as usize;
+    assert_eq!(pad, x as u64);
+    assert!(x == 0 || (x >= 4 && x < 4 + 8));
+    let data_at = 31 + x;
+    if align >= 2 {
+        assert_eq!((base + data_at as u64) % (align as u64), 0, "entry data not aligned");
+    } else {
+        assert_eq!(x, 0);
+    }
+    if x > 0 {
+        assert_eq!(le16(b, 31), 0x617a);
+        assert_eq!(le16(b, 33) as usize, x - 4);
+    }
+    assert_eq!(b[data_at], d0);
+    let cd = data_at + 1;
+    assert_eq!(le32(b, cd), SIG_CENTRAL);
+    assert_eq!(le16(b, cd + 30), 0); // padding is local-only
+    assert_eq!(le32(b, cd + 42) as u64, base);
+    assert_eq!(le32(b, cd + 20), 1);
+    kani::cover!(x == 4);
+    kani::cover!(x == 0 && align == 8);
+    kani::cover!(x == 11);
+});
+
+/// C13 append: a one-entry archive from the independent builder (all metadata symbolic: method
+/// any number, times, CRC, sizes as declared, attributes, made-by; 1-byte ASCII name, 2-byte
+/// payload, 1-byte archive comment) is opened with new_append, one new stored entry is added
+/// and the archive finished: the old local header and data bytes are untouched, the new entry
+/// follows them, the central directory lists the old entry first with the same name, method,
+/// time, CRC, sizes, attributes (same Unix mode) and offset, then the new one; counts, sizes
+/// and offsets of the end record are exact and the archive comment is kept.
+// @h prop=C13,C02 tier=quick t=1800 mem=10
+api_harness!(c13_append_one_entry, 10, {
+    const N: usize = 224;
+    let mut b = [0u8; N];
+    let mut v = EntryVals::any();
+    v.flags &= 1 << 3; // unencrypted; local sizes may be zero under bit 3
+    let name: [u8; 1] = kani::any();
+    kani::assume(name[0] < 0x80);
+    let payload: [u8; 2] = kani::any();
+    let cm: [u8; 1] = kani::any();
+    v.csize = 2;
+    v.offset = 0;
+    let dd = v.flags & (1 << 3) != 0;
+    let p = put_local(&mut b, 0, &v, if dd { 0 } else { v.crc }, if dd { 0 } else { 2 }, if dd { 0 } else { v.usize_ }, &name, &[]);
+    b[p] = payload[0];
+    b[p + 1] = payload[1];
+    let cd0 = p + 2;
+    let e0 = put_central(&mut b, cd0, &v, &name, &[], &[]);
+    let end0 = put_eocd(&mut b, e0, 0, 0, 1, 1, (e0 - cd0) as u32, cd0 as u32, &cm);
+    let orig = b;
+    let mut sink = Sink::<N>::from_bytes(&b[..end0]);
+    let mut w = match ZipWriter::new_append(sink.handle()) {
+        Ok(w) => w,
+        Err(e) => {
+            core::mem::forget(e);
+            assert!(false, "well-formed archive refused by new_append");
+            return;
+        }
+    };
+    let (o1, date1, time1, perm1) = sym_opts();
+    let d0: u8 = kani::any();
+    ok!(w.start_file("n", o1), "start_file failed");
+    ok!(w.write_all(&[d0]), "write failed");
+    ok!(w.finish(), "finish failed");
+    core::mem::forget(w);
+    assert!(!sink.overflow);
+    let nb = &sink.buf;
+    // old entry bytes untouched
+    let mut i = 0;
+    while i < cd0 {
+        assert_eq!(nb[i], orig[i]);
+        i += 1;
+    }
+    // new local entry directly after the old data
+    assert_eq!(le32(nb, cd0), SIG_LOCAL);
+    assert_eq!(le16(nb, cd0 + 8), 0);
+    assert_eq!(le16(nb, cd0 + 10), time1);
+    assert_eq!(le16(nb, cd0 + 12), date1);
+    assert_eq!(le32(nb, cd0 + 14), ref_crc32(&[d0], 1));
+    assert_eq!(le32(nb, cd0 + 18), 1);
+    assert_eq!(le32(nb, cd0 + 22), 1);
+    assert_eq!(le16(nb, cd0 + 26), 1);
+    assert_eq!(le16(nb, cd0 + 28), 0);
+    assert_eq!(nb[cd0 + 30], b'n');
+    assert_eq!(nb[cd0 + 31], d0);
+    // central directory: old entry, then new entry
+    let c0 = cd0 + 32;
+    assert_eq!(le32(nb, c0), SIG_CENTRAL);
+    assert_eq!(le16(nb, c0 + 8) & 1, 0);
+    assert_eq!(le16(nb, c0 + 10), v.method);
+    assert_eq!(le16(nb, c0 + 12), v.time);
+    assert_eq!(le16(nb, c0 + 14), v.date);
+    assert_eq!(le32(nb, c0 + 16), v.crc);
+    assert_eq!(le32(nb, c0 + 20), 2);
+    let u32s = (le32(nb, c0 + 24), le32(nb, c0 + 20), le32(nb, c0 + 42));
+    let elen0 = le16(nb, c0 + 30) as usize;
+    assert_eq!(le16(nb, c0 + 28), 1);
+    assert_eq!(nb[c0 + 46], name[0]);
+    match strict_zip64_decode(nb, c0 + 47, elen0, u32s) {
+        Some((usz, csz, off, z)) => {
+            assert_eq!(usz, v.usize_ as u64);
+            assert_eq!(csz, 2);
+            assert_eq!(off, 0);
+            assert_eq!(z, elen0);
+        }
+        None => assert!(false, "re-emitted central record inconsistent"),
+    }
+    // same Unix mode as before
+    {
+        let made_by = le16(nb, c0 + 4);
+        let eattr = le32(nb, c0 + 38);
+        assert_eq!(eattr, v.eattr);
+        let before = match v.made_by >> 8 {
+            3 => Some(3u16),
+            0 => Some(0u16),
+            _ => None,
+        };
+        let after = match made_by >> 8 {
+            3 => Some(3u16),
+            0 => Some(0u16),
+            _ => None,
+        };
+        assert_eq!(before, after);
+    }
+    let c1 = c0 + 47 + elen0;
+    assert_eq!(le32(nb, c1), SIG_CENTRAL);
+    assert_eq!(le16(nb, c1 + 10), 0);
+    assert_eq!(le16(nb, c1 + 12), time1);
+    assert_eq!(le32(nb, c1 + 16), ref_crc32(&[d0], 1));
+    assert_eq!(le32(nb, c1 + 20), 1);
+    assert_eq!(le32(nb, c1 + 24), 1);
+    assert_eq!(le16(nb, c1 + 28), 1);
+    assert_eq!(le16(nb, c1 + 30), 0);
+    assert_eq!(le32(nb, c1 + 38) >> 16, 0o100000 | perm1);
+    assert_eq!(le32(nb, c1 + 42) as usize, cd0);
+    assert_eq!(nb[c1 + 46], b'n');
+    let eo = c1 + 47;
+    assert_eq!(le32(nb, eo), SIG_EOCD);
+    assert_eq!(le16(nb, eo + 8), 2);
+    assert_eq!(le16(nb, eo + 10), 2);
+    assert_eq!(le32(nb, eo + 12) as usize, eo - c0);
+    assert_eq!(le32(nb, eo + 16) as usize, c0);
+    assert_eq!(le16(nb, eo + 20), 1);
+    assert_eq!(nb[eo + 22], cm[0]);
+    assert_eq!(sink.end, eo + 23);
+    kani::cover!(elen0 == 12);
+    kani::cover!(elen0 == 0 && dd);
+});
+
+/// C13 appending nothing leaves an equivalent archive: new_append followed directly by finish
+/// rewrites the central directory with the same entry values at the same place and keeps the
+/// comment; the old local header and data are untouched.
+// @h prop=C13 tier=quick t=1500 mem=8
+api_harness!(c13_append_nothing, 10, {
+    const N: usize = 160;
+    let mut b = [0u8; N];
+    let mut v = EntryVals::any();
+    v.flags = 0;
+    kani::assume(v.usize_ != 0xFFFF_FFFF);
+    let name: [u8; 1] = kani::any();
+    kani::assume(name[0] < 0x80);
+    let payload: [u8; 2] = kani::any();
+    let cm: [u8; 2] = kani::any();
+    v.csize = 2;
+    v.offset = 0;
+    let p = put_local(&mut b, 0, &v, v.crc, 2, v.usize_, &name, &[]);
+    b[p] = payload[0];
+    b[p + 1] = payload[1];
+    let cd0 = p + 2;
+    let e0 = put_central(&mut b, cd0, &v, &name, &[], &[]);
+    let end0 = put_eocd(&mut b, e0, 0, 0, 1, 1, (e0 - cd0) as u32, cd0 as u32, &cm);
+    let orig = b;
+    let mut sink = Sink::<N>::from_bytes(&b[..end0]);
+    let mut w = match ZipWriter::new_append(sink.handle()) {
+        Ok(w) => w,
+        Err(e) => {
+            core::mem::forget(e);
+            assert!(false, "well-formed archive refused by new_append");
+            return;
+        }
+    };
+    ok!(w.finish(), "finish failed");
+    core::mem::forget(w);
+    let nb = &sink.buf;
+    assert_eq!(sink.end, end0);
+    let mut i = 0;
+    while i < cd0 {
+        assert_eq!(nb[i], orig[i]);
+        i += 1;
+    }
+    assert_eq!(le32(nb, cd0), SIG_CENTRAL);
+    assert_eq!(le16(nb, cd0 + 10), v.method);
+    assert_eq!(le16(nb, cd0 + 12), v.time);
+    assert_eq!(le16(nb, cd0 + 14), v.date);
+    assert_eq!(le32(nb, cd0 + 16), v.crc);
+    assert_eq!(le32(nb, cd0 + 20), 2);
+    assert_eq!(le32(nb, cd0 + 24), v.usize_);
+    assert_eq!(le16(nb, cd0 + 28), 1);
+    assert_eq!(le16(nb, cd0 + 30), 0);
+    assert_eq!(le32(nb, cd0 + 38), v.eattr);
+    assert_eq!(le32(nb, cd0 + 42), 0);
+    assert_eq!(nb[cd0 + 46], name[0]);
+    assert_eq!(le32(nb, e0), SIG_EOCD);
+    assert_eq!(le16(nb, e0 + 8), 1);
+    assert_eq!(le32(nb, e0 + 12) as usize, e0 - cd0);
+    assert_eq!(le32(nb, e0 + 16) as usize, cd0);
+    assert_eq!(le16(nb, e0 + 20), 2);
+    assert_eq!(nb[e0 + 22], cm[0]);
+    assert_eq!(nb[e0 + 23], cm[1]);
+    kani::cover!(true);
+});
+
+/// C14/C12 raw copy between two normally written entries: the source entry (independent
+/// builder; method ANY 16-bit number incl. undecodable ones, declared CRC and uncompressed size
+/// arbitrary, 2 stored bytes, arbitrary time/attributes/made-by) is copied under a new name with
+/// raw_copy_file_rename: its compressed bytes, method, CRC, sizes and time arrive unchanged,
+/// permission bits equal the source's (default mode when the source has none), and the
+/// entries written before and after it hold exactly their own bytes with their own CRCs.
+// @h prop=C14,C12,C01 tier=quick t=2400 mem=10
+#[kani::proof]
+#[kani::unwind(10)]
+#[kani::stub(time::OffsetDateTime::now_utc, crate::verif_kit::stub_now_utc)]
+#[kani::stub(crc32fast::Hasher::internal_new_specialized, crate::verif_kit::stub_crc_specialized)]
+#[kani::stub(alloc::fmt::format, crate::verif_kit::stub_format)]
+#[kani::stub(std::hash::RandomState::new, crate::verif_kit::stub_random_state)]
+#[kani::stub(std::collections::HashMap::insert, crate::verif_kit::stub_hashmap_insert)]
+fn c14_raw_copy_between_neighbours() {
+    const SN: usize = 128;
+    let mut sb = [0u8; SN];
+    let mut v = EntryVals::any();
+    v.flags &= 1 << 11;
+    let sname: [u8; 1] = kani::any();
+    let payload: [u8; 2] = kani::any();
+    v.csize = 2;
+    v.offset = 0;
+    let p = put_local(&mut sb, 0, &v, v.crc, 2, v.usize_, &sname, &[]);
+    sb[p] = payload[0];
+    sb[p + 1] = payload[1];
+    let cd0 = p + 2;
+    let e0 = put_central(&mut sb, cd0, &v, &sname, &[], &[]);
+    let end0 = put_eocd(&mut sb, e0, 0, 0, 1, 1, (e0 - cd0) as u32, cd0 as u32, &[]);
+    let mut ar = match ZipArchive::new(Src::<SN>::new(sb, end0)) {
+        Ok(a) => a,
+        Err(e) => {
+            core::mem::forget(e);
+            assert!(false, "source archive rejected");
+            return;
+        }
+    };
+    let mut sink = Sink::<224>::new();
+    let mut w = ZipWriter::new(sink.handle());
+    let (o1, date1, time1, perm1) = sym_opts();
+    let (o3, date3, time3, perm3) = sym_opts();
+    let d: [u8; 2] = kani::any();
+    ok!(w.start_file("x", o1), "start_file x failed");
+    ok!(w.write_all(&d[..1]), "write failed");
+    {
+        let f = match ar.by_index_raw(0) {
+            Ok(f) => f,
+            Err(e) => {
+                core::mem::forget(e);
+                assert!(false, "raw access failed");
+                return;
+            }
+        };
+        ok!(w.raw_copy_file_rename(f, "y"), "raw copy failed");
+    }
+    ok!(w.start_file("z", o3), "start_file z failed");
+    ok!(w.write_all(&d[1..]), "write failed");
+    ok!(w.finish(), "finish failed");
+    core::mem::forget(w);
+    core::mem::forget(ar);
+    let src_mode = match v.made_by >> 8 {
+        3 if v.eattr != 0 => Some(v.eattr >> 16),
+        0 if v.eattr != 0 => {
+            let mut m = if v.eattr & 0x10 != 0 { 0o040000 | 0o775 } else { 0o100000 | 0o664 };
+            if v.eattr & 1 != 0 {
+                m &= 0o555;
+            }
+            Some(m)
+        }
+        _ => None,
+    };
+    let want_mode = match src_mode {
+        Some(m) => m & 0o777,
+        None => 0o100644,
+    };
+    let exp = [
+        Exp { name: b"x", content: &d[..1], local_extra: &[], central_extra: &[], large: false, date: date1, time: time1, mode: 0o100000 | perm1, encrypted: false, raw: None },
+        Exp { name: b"y", content: &payload, local_extra: &[], central_extra: &[], large: false, date: v.date, time: v.time, mode: want_mode, encrypted: false, raw: Some(RawExp { method: v.method, crc: v.crc, usize_: v.usize_ }) },
+        Exp { name: b"z", content: &d[1..], local_extra: &[], central_extra: &[], large: false, date: date3, time: time3, mode: 0o100000 | perm3, encrypted: false, raw: None },
+    ];
+    judge_archive(&sink.buf, 0, sink.end, &exp, &[]);
+    kani::cover!(v.method == 8);
+    kani::cover!(src_mode.is_none());
+}
+
+/// C11 writer: the sink fails at ONE arbitrary I/O call (symbolic index, any of write / seek /
+/// flush) during start_file(a), write, start_file(b), write, finish. No call panics (then or
+/// later), and if no call reported an error the produced archive is exactly the failure-free one.
+// @h prop=C11,C12 tier=quick t=2400 mem=10
+api_harness!(c11_writer_fault_any_point, 10, {
+    let k: u32 = kani::any();
+    let kinds: u8 = kani::any();
+    let mut sink = Sink::<192>::with_env(Env::faulty(k, kinds));
+    let mut w = ZipWriter::new(sink.handle());
+    let d: [u8; 2] = kani::any();
+    let (o1, date1, time1, perm1) = sym_opts();
+    let (o2, date2, time2, perm2) = sym_opts();
+    let mut any_err = false;
+    match w.start_file("a", o1) {
+        Ok(()) => {}
+        Err(e) => {
+            core::mem::forget(e);
+            any_err = true;
+        }
+    }
+    match w.write_all(&d[..1]) {
+        Ok(()) => {}
+        Err(e) => {
+            core::mem::forget(e);
+            any_err = true;
+        }
+    }
+    match w.start_file("b", o2) {
+        Ok(()) => {}
+        Err(e) => {
+            core::mem::forget(e);
+            any_err = true;
+        }
+    }
+    match w.write_all(&d[1..]) {
+        Ok(()) => {}
+        Err(e) => {
+            core::mem::forget(e);
+            any_err = true;
+        }
+    }
+    match w.finish() {
+        Ok(_) => {}
+        Err(e) => {
+            core::mem::forget(e);
+            any_err = true;
+        }
+    }
+    core::mem::forget(w);
+    if !any_err {
+        let exp = [
+            Exp { name: b"a", content: &d[..1], local_extra: &[], central_extra: &[], large: false, date: date1, time: time1, mode: 0o100000 | perm1, encrypted: false, raw: None },
+            Exp { name: b"b", content: &d[1..], local_extra: &[], central_extra: &[], large: false, date: date2, time: time2, mode: 0o100000 | perm2, encrypted: false, raw: None },
+        ];
+        judge_archive(&sink.buf, 0, sink.end, &exp, &[]);
+    }
+    kani::cover!(any_err && sink.env.faulted);
+    kani::cover!(!any_err);
 });
